@@ -767,7 +767,7 @@ class RootSourcedStateBackend(StateBackend):
         All arguments match the base class.
         """
         local_root_exists = cls._check_root(params, object)
-        if params["pool_scope"] == "own":
+        if "shared" not in params.get_list("pool_scope"):
             return local_root_exists
         pool_root_exists = cls.transport.check_root(params, object)
         # TODO: boot state has to be deprecated and it cannot be handled remotely
@@ -782,11 +782,12 @@ class RootSourcedStateBackend(StateBackend):
 
         All arguments match the base class.
         """
-        if "own" not in params["pool_scope"]:
-            cls.transport.get_root(params, object)
-            return
-        elif params["pool_scope"] == "own":
+        scopes = params.get_list("pool_scope")
+        if "shared" not in scopes:
             cls._get_root(params, object)
+            return
+        elif "own" not in scopes:
+            cls.transport.get_root(params, object)
             return
 
         local_root_exists = cls._check_root(params, object)
